@@ -46,7 +46,7 @@ FLOORS = {
     "P1": 3, "P2": 2, "P3": 5, "P4": 1, "P5": 2, "P6": 9, "P7": 5, "P8": 1, "P9": 1, "P10": 1, "P11": 1, "P12": 1, "P13": 1,
     "E7": 30, "U1": 5, "S2": 12, "S3": 15, "G1": 3, "G2": 5, "G3": 8, "G4": 5, "G5": 1, "S1b": 6, "M1": 1,
     "N1": 25, "N2": 8, "O4": 2, "O5": 4, "O6": 1, "O7": 2, "V1": 10, "V2": 1, "S4": 1, "S5": 2, "S6": 10, "S7": 4, "S8": 1, "S1c": 12,
-    "V3": 3, "G6": 1, "J1": 2, "P14": 1, "F12": 1, "G7": 1, "P15": 1,
+    "V3": 3, "G6": 1, "J1": 2, "P14": 1, "F12": 1, "G7": 1, "M3": 1, "P15": 1,
 }
 
 PROPERTIES = {}
@@ -255,8 +255,9 @@ prop(
 prop(
     "C06",
     anchor_modules=ENGINE_MODS,
-    rules=[E.rule_O2, E.rule_F2, G.rule_M1, P.rule_P3, P.rule_P6, PU.rule_V1, PU.rule_O7],
-    controls=[K.ctl_drop_ctx_copy, K.ctl_merge_skips_none],
+    rules=[E.rule_O2, E.rule_F2, G.rule_M1, P.rule_P3, P.rule_P6, PU.rule_V1, PU.rule_O7,
+           SH.rule_M3],
+    controls=[K.ctl_drop_ctx_copy, K.ctl_merge_skips_none, K.ctl_shared_transition_ctx],
     explanation=(
         "Decides one clause: isolation of the context store. A stored context delta is never "
         "written after it was appended, and no task context is built by mutating a stored delta "
@@ -302,8 +303,8 @@ prop(
     "C01",
     anchor_modules=ENGINE_MODS,
     rules=[P.rule_P1, P.rule_P2, P.rule_P3, P.rule_P4, P.rule_P9, PU.rule_V2, G.rule_G3,
-           P.rule_P14, SH.rule_P15, SH.rule_G7],
-    controls=[K.ctl_stale_retry_delay, K.ctl_offer_completed_entries, K.ctl_stage_without_criteria,
+           P.rule_P14, SH.rule_P15, SH.rule_G7, SH.rule_M3],
+    controls=[K.ctl_stale_retry_delay, K.ctl_shared_transition_ctx, K.ctl_offer_completed_entries, K.ctl_stage_without_criteria,
               K.ctl_keep_started_task_staged, K.ctl_route_without_append,
               K.ctl_falsy_result_dropped, K.ctl_swallow_report,
               K.ctl_skip_transitions_when_canceling],
@@ -324,7 +325,10 @@ prop(
         "task without items (V2); update_task_state drops no report selectively (every path raises, "
         "ignores every report alike, or reaches the task state machine: P14) and evaluates all "
         "the outgoing transitions of every task that completes, under no further condition "
-        "(P15 - skipping them loses the successors a rerun continues from). NOT decided: the multiset "
+        "(P15 - skipping them loses the successors a rerun continues from); no value computed for "
+        "one entry or transition is carried into the next by a loop variable that is only set "
+        "conditionally (G7) or by a context object that the first transition merges into (M3). "
+        "NOT decided: the multiset "
         "equality between executed tasks and what the definition prescribes over all graph "
         "shapes, outcome assignments and completion orders; cycle re-entry."),
     assumptions=[A_ABS, A_AST],
